@@ -920,3 +920,156 @@ Proof.
   rewrite Hp1, Hw1. rewrite (g_run_nomain fuel _ g0 None (pieces_nomain p c1 c2 Hok)).
   rewrite pieces_concat. symmetry. apply g_whole, Hok.
 Qed.
+
+(* ------------------------------------------------------------------ *)
+(** * Complete programs fed declaration by declaration *)
+
+Lemma declares_main_app c1 c2 : declares_main (c1 ++ c2) = declares_main c1 || declares_main c2.
+Proof. unfold declares_main, funcs. rewrite flat_map_app. apply existsb_app. Qed.
+
+Lemma g_run_mainlast fuel : forall cs g,
+  main_last cs = true -> gmem (fst (g_run fuel g cs)) = gmem (fst (g_eval fuel g (concat cs))).
+Proof.
+  induction cs as [|c r IH]; intros g Hl.
+  - simpl. unfold g_eval. simpl. reflexivity.
+  - destruct r as [|c2 r2].
+    + simpl. rewrite app_nil_r. destruct (g_eval fuel g c) as [g1 r1]. reflexivity.
+    + assert (Hl' : negb (declares_main c) && main_last (c2 :: r2) = true) by exact Hl.
+      apply andb_true_iff in Hl' as [Hl1 Hl2]. apply negb_true_iff in Hl1.
+      change (concat (c :: c2 :: r2)) with (c ++ concat (c2 :: r2)).
+      change (g_run fuel g (c :: c2 :: r2)) with
+        (let '(g1, r1) := g_eval fuel g c in let '(g2, rs) := g_run fuel g1 (c2 :: r2) in (g2, r1 :: rs)).
+      unfold g_eval. rewrite declares_main_app, Hl1, g_items_app. cbn [orb].
+      destruct (g_items fuel g None c) as [g1 r1].
+      specialize (IH g1 Hl2). destruct (g_run fuel g1 (c2 :: r2)) as [g2 rs]. cbn [fst] in *. rewrite IH.
+      unfold g_eval.
+      pose proof (g_items_fst fuel (concat (c2 :: r2)) g1 None r1) as Hf.
+      destruct (g_items fuel g1 None (concat (c2 :: r2))) as [ga ra].
+      destruct (g_items fuel g1 r1 (concat (c2 :: r2))) as [gb rb]. cbn [fst] in Hf. subst gb.
+      destruct (declares_main (concat (c2 :: r2))); reflexivity.
+Qed.
+
+Lemma concat_all_decl cs : forallb (forallb is_decl) cs = true -> forallb is_decl (concat cs) = true.
+Proof.
+  induction cs as [|c r IH]; intros H; [reflexivity|]. simpl in *. apply andb_true_iff in H as [H1 H2].
+  rewrite forallb_app, H1. apply IH, H2.
+Qed.
+
+(** A complete program (declarations only, [main] among them) cut into chunks: same memory as in
+    one piece, provided [main] sits in the last chunk. *)
+Theorem complete_program_cut fuel cs :
+  forallb (forallb is_decl) cs = true -> ordered (concat cs) = true ->
+  inits_indirect (concat cs) = true -> main_last cs = true ->
+  ymem (fst (y_run fuel y0 cs)) = ymem (fst (y_run fuel y0 [concat cs])).
+Proof.
+  intros Hd Ho Hi Hl.
+  assert (Hh : forallb homogeneous cs = true).
+  { rewrite forallb_forall in *. intros c Hc. unfold homogeneous. rewrite (Hd c Hc). reflexivity. }
+  pose proof (f_equal fst (y_session_is_g fuel cs Hh Ho Hi Hl)) as H1.
+  assert (H2 : fst (obs_y (y_run fuel y0 [concat cs])) = fst (obs_g (g_run fuel g0 [concat cs]))).
+  { f_equal. apply y_session_is_g.
+    - simpl. unfold homogeneous. rewrite (concat_all_decl cs Hd). reflexivity.
+    - simpl. rewrite app_nil_r. exact Ho.
+    - simpl. rewrite app_nil_r. exact Hi.
+    - reflexivity. }
+  unfold obs_y, obs_g in H1, H2. cbn [fst] in H1, H2. rewrite H1, H2.
+  rewrite (g_run_mainlast fuel cs g0 Hl). simpl. destruct (g_eval fuel g0 (concat cs)) as [g1 r1]. reflexivity.
+Qed.
+
+(* ------------------------------------------------------------------ *)
+(** * Entry points *)
+
+Lemma compile_execute_is_eval fuel s c : y_compile_execute fuel s c = y_eval fuel s c.
+Proof. unfold y_compile_execute, y_eval. destruct (y_compile s c) as [[s1 [p|]] r]; reflexivity. Qed.
+
+(** Eval, Compile+Execute, CompileAST+Execute and EvalPath file by file are the same function of the
+    chunk list: they share [compileSrc]/[CompileAST]/[Execute]. *)
+Theorem entrypoints_agree fuel : forall cs s,
+  y_run_ce fuel s cs = y_run fuel s cs /\ y_run_ast fuel s cs = y_run fuel s cs /\ y_run_path fuel s cs = y_run fuel s cs.
+Proof.
+  assert (H : forall cs s, y_run_ce fuel s cs = y_run fuel s cs).
+  { induction cs as [|c r IH]; intros s; [reflexivity|]. simpl. rewrite compile_execute_is_eval.
+    destruct (y_eval fuel s c) as [s1 r1]. rewrite IH. reflexivity. }
+  intros cs s. repeat split; try apply H. 
+Qed.
+
+(* ------------------------------------------------------------------ *)
+(** * Redefinition *)
+
+(** (Re)defining [f] leaves every other function symbol, all code compiled so far, the variable
+    scope and, unless a [main] is around, the whole memory as they were. *)
+Theorem redefine_local fuel s f d s' r :
+  y_eval fuel s [IFunc f d] = (s', r) ->
+  (forall g, g <> f -> alookup (fscope s') g = alookup (fscope s) g)
+  /\ (forall k rd, nth_error (code s) k = Some rd -> nth_error (code s') k = Some rd)
+  /\ vscope s' = vscope s
+  /\ (f <> main_name -> alookup (fscope s) main_name = None -> ymem s' = ymem s).
+Proof.
+  unfold y_eval, y_compile. cbn [forallb is_decl andb funcs inits vars flat_map app gta_f gta_v map rev res_funcs res_inits mapM snd].
+  destruct (res_d (alookup ((f, length (code s)) :: fscope s)) d) as [rd|] eqn:Er.
+  - unfold y_execute. cbn [p_stmts p_inits p_loop p_main exl loop_flag existsb run_inits code ymem fscope].
+    intros H.
+    assert (Hs : fscope s' = (f, length (code s)) :: fscope s /\ code s' = code s ++ [rd] /\ vscope s' = vscope s
+                 /\ (alookup ((f, length (code s)) :: fscope s) main_name = None -> ymem s' = ymem s)).
+    { destruct (alookup ((f, length (code s)) :: fscope s) main_name) eqn:Em; inversion H; subst; simpl; repeat split; try reflexivity; discriminate. }
+    destruct Hs as [H1 [H2 [H3 H4]]]. split; [|split; [|split]].
+    + intros g Hg. rewrite H1. simpl. destruct (N.eqb_spec f g); [congruence|reflexivity].
+    + intros k rd' Hk. rewrite H2. rewrite nth_error_app1; [exact Hk|]. apply nth_error_Some. congruence.
+    + exact H3.
+    + intros Hf Hm. apply H4. simpl. destruct (N.eqb_spec f main_name); [congruence|exact Hm].
+  - intros H. inversion H; subst. repeat split; try reflexivity. intros k rd Hk. exact Hk.
+Qed.
+
+(* ------------------------------------------------------------------ *)
+(** * Non-vacuity and refutations (by computation) *)
+
+Lemma example_ok :
+  prog_ok p_example = true /\ inits_indirect (decls p_example) = true
+  /\ length (pieces p_example [1; 2]%nat [1; 1]%nat) = 6%nat
+  /\ out (ymem (fst (y_run 8 y0 (pieces p_example [1; 2]%nat [1; 1]%nat)))) = [19; 9; 3]%Z
+  /\ snd (y_run 8 y0 (pieces p_example [1; 2]%nat [1; 1]%nat)) = [ROk None; ROk None; ROk None; ROk None; ROk None; ROk (Some 25%Z)].
+Proof. vm_compute. repeat split. Qed.
+
+Lemma example_complete :
+  let cs := [[IVar 1 (EConst 1%Z)]; [IFunc 1 ([upd 2 1], EVar 1); IVar 2 (ECall 1 (EConst 0%Z))];
+             [IFunc main_name ([SPrint (EVar 2)], EConst 0%Z)]] in
+  forallb (forallb is_decl) cs = true /\ ordered (concat cs) = true /\ inits_indirect (concat cs) = true
+  /\ main_last cs = true /\ out (ymem (fst (y_run 8 y0 cs))) = [3%Z].
+Proof. vm_compute. repeat split. Qed.
+
+Lemma example_session :
+  forallb homogeneous redef_cs = true /\ uses_defined (concat redef_cs) = true
+  /\ obs_y (y_run 8 y0 redef_cs) = obs_g (g_run 8 g0 redef_cs)
+  /\ out (ymem (fst (y_run 8 y0 redef_cs))) = [10; 2]%Z.
+Proof. vm_compute. repeat split. Qed.
+
+(** after a chunk that declares [main], every later chunk runs [main] again *)
+Lemma main_rerun_refuted :
+  forallb (forallb is_decl) rerun_cs = true /\ ordered (concat rerun_cs) = true /\ inits_indirect (concat rerun_cs) = true
+  /\ rev (out (ymem (fst (y_run 8 y0 rerun_cs)))) = [3; 7]%Z
+  /\ rev (out (ymem (fst (y_run 8 y0 [concat rerun_cs])))) = [3%Z]
+  /\ rev (out (gmem (fst (g_run 8 g0 rerun_cs)))) = [3%Z]
+  /\ ymem (fst (y_run 8 y0 rerun_cs)) <> ymem (fst (y_run 8 y0 [concat rerun_cs])).
+Proof. vm_compute. repeat split. intros H. discriminate. Qed.
+
+(** a package-level variable whose initialiser mentions a variable of an earlier chunk is rejected *)
+Lemma var_xdep_refuted :
+  prog_ok p_xdep = true
+  /\ snd (y_run 8 y0 (pieces p_xdep [1]%nat [])) = [ROk None; RLoop; ROk None]
+  /\ rev (out (ymem (fst (y_run 8 y0 (pieces p_xdep [1]%nat []))))) = [0%Z]
+  /\ rev (out (ymem (fst (y_run 8 y0 [whole p_xdep])))) = [11%Z]
+  /\ ymem (fst (y_run 8 y0 (pieces p_xdep [1]%nat []))) <> ymem (fst (y_run 8 y0 [whole p_xdep])).
+Proof. vm_compute. repeat split. intros H. discriminate. Qed.
+
+(** a function compiled before a redefinition keeps calling the old body *)
+Lemma stale_callee_refuted :
+  forallb homogeneous stale_cs = true /\ uses_defined (concat stale_cs) = true /\ inits_indirect (concat stale_cs) = true
+  /\ out (ymem (fst (y_run 8 y0 stale_cs))) = [3%Z] /\ out (gmem (fst (g_run 8 g0 stale_cs))) = [4%Z]
+  /\ obs_y (y_run 8 y0 stale_cs) <> obs_g (g_run 8 g0 stale_cs).
+Proof. vm_compute. repeat split. intros H. discriminate. Qed.
+
+(** the side condition [ordered] is what "interactive style" means: a forward reference across chunks does not compile *)
+Lemma ordered_needed :
+  ordered (concat forward_cs) = false /\ snd (y_run 8 y0 forward_cs) = [RUndef; ROk None]
+  /\ snd (y_run 8 y0 [concat forward_cs]) = [ROk None].
+Proof. vm_compute. repeat split. Qed.
